@@ -456,6 +456,26 @@ def run_deepcopy(c):
     if not o and snap(t) != before:
         o = 'deepcopy modified its source'
     c['o8'] = o if fixture_ok else None
+    if not o and fixture_ok:
+        # a copy holds what its source holds: terminal arrays of other element types than the float64 a TreeSpace creates (float32,
+        # float16, extended precision, integers) are copied with their type, shape and exact elements
+        for dt in ('float32', 'float16', 'longdouble', 'int64'):
+            t2 = build(c['shape'], sp)
+            for n in pre(t2):
+                if n.type == 'TERMINAL':
+                    n.value = (np.asarray(n.value, dtype=float) * 1.37 + 0.1).astype(dt)
+            cp2, exc2 = guarded(lambda: copy.deepcopy(t2))
+            if exc2:
+                o = 'deepcopy of a tree with %s terminals raised %s' % (dt, exc2)
+                break
+            bad = [(a.value.dtype, b.value.dtype) for a, b in zip(pre(t2), pre(cp2)) if a.type == 'TERMINAL' and not (
+                isinstance(b.value, np.ndarray) and a.value.dtype == b.value.dtype and a.value.shape == b.value.shape
+                and bool(np.array_equal(a.value, b.value)))]
+            if bad or len(pre(t2)) != len(pre(cp2)):
+                o = 'deepcopy of a tree with %s terminals: the copy holds %s where the source holds %s' % (dt, bad[0][1] if bad else 'other nodes', bad[0][0] if bad else dt)
+                break
+        if o:
+            c['o8'] = c['o9'] = o
 
 
 def run_grow(c):
